@@ -109,7 +109,7 @@ func (c13) Gen(r *Rand, idx int, tier string) interface{} {
 	p.SendAfter = r.Pct(50)
 	p.CauseCtx = p.Kind == "cancel" && r.Pct(30)
 	p.WithEED = (p.Consumer == "until-nil" || p.Consumer == "until-err") && (p.Kind == "cancel" || p.Kind == "close-recv") && r.Pct(50)
-	p.Logout = Pick(r, []string{"answer", "answer", "late", "never", "partial"})
+	p.Logout = Pick(r, []string{"answer", "answer", "late", "never", "partial", "drip"})
 	p.LateMs = Pick(r, []int{10, 1000, 59000, 61000})
 	p.DoubleClose = r.Pct(40)
 	p.ConcurrentClose = p.Kind == "closed-calls" && r.Pct(40)
@@ -226,6 +226,9 @@ type c13Res struct {
 	sendDone                       bool
 	// cancel-send2: event sequence number after which nothing of the cancelled sender's package may reach the wire
 	lateFrom int
+	// connClosed: Conn.Close was called and returned (at connClosedAt): transport closed, reader ended - promptly
+	connClosed   bool
+	connClosedAt time.Duration
 }
 
 func (r *c13Res) violate(class, sig, format string, a ...interface{}) {
@@ -268,6 +271,13 @@ func (c13) Run(plan interface{}, schedSeed uint64, replay []simrt.Choice, lenien
 			case "late":
 				s.Fault("logout-answered-late")
 				pr.Conn.DeliverAfter(time.Duration(p.LateMs)*time.Millisecond, done[0])
+			case "drip":
+				// a slow server, not a dead one: the logout is answered with one counted DONE (more to come) every
+				// thirty seconds, eight of them, never a final one. Close may not wait for each of them afresh.
+				s.Fault("logout-answered-drop-by-drop")
+				for k := 1; k <= 8; k++ {
+					pr.Conn.DeliverAfter(time.Duration(k)*30*time.Second, peer.Packetise(peer.Done(0x11, 0, int32(k)), nil, peer.BufResponse, m.Channel, false)[0])
+				}
 			case "partial":
 				// the header and half of the body, then nothing: the reader sits inside the packet
 				s.Fault("logout-answered-in-part")
@@ -473,7 +483,17 @@ func (c13) Run(plan interface{}, schedSeed uint64, replay []simrt.Choice, lenien
 	if res.closeDone && res.closeEnd-res.closeStart > 61*time.Second {
 		v.Violate("slow-close", "close took longer than the logout timeout", "%s: Close took %v of simulated time", p.Kind, res.closeEnd-res.closeStart)
 	}
-	if (p.Kind == "conn-close" || p.Kind == "close-errqueue") && v.Class == "" {
+	if res.connClosed && v.Class == "" {
+		// the reader ends when the connection is closed - not some seconds later (a read on the closed transport
+		// returns at once; one EOF poll may be under way)
+		for _, e := range out.Ended {
+			if strings.HasPrefix(e.Task, "go@") && e.At > res.connClosedAt+2*time.Second {
+				v.Violate("reader-not-ended", "reader goroutine outlives Conn.Close", "%s: Conn.Close returned at t=%v, the reader goroutine ended at t=%v", p.Kind, res.connClosedAt, e.At)
+			}
+		}
+		v.Probe("conn-closed-and-judged")
+	}
+	if (p.Kind == "conn-close" || p.Kind == "close-errqueue" || (p.Kind == "cancel" && res.connClosed)) && v.Class == "" {
 		if pr.Conn.CloseCalls == 0 {
 			v.Violate("transport-not-closed", "transport not closed by Conn.Close", "Conn.Close returned but the transport's Close was never called")
 		}
@@ -626,6 +646,17 @@ func c13Cancel(p *c13Plan, res *c13Res, conn *tds.Conn, ch *tds.Channel, cancelP
 	}
 	if p.CauseCtx && p.CancelWhat == "own" {
 		c13CauseCtx(p, res, ch)
+	}
+	if p.CancelWhat == "conn" {
+		// the context given to NewConn was cancelled from outside; the connection is closed afterwards all the same:
+		// Conn.Close still closes the channels and the transport and ends the reader
+		_ = conn.Close()
+		res.connClosed, res.connClosedAt = true, simrt.SimNow()
+		pk, err := ch.NextPackage(context.Background(), false)
+		if pk != nil || !errors.Is(err, tds.ErrChannelClosed) {
+			res.violate("channel-open-after-conn-close", "conn-close: channel not closed", "after the connection's context was cancelled from outside and Conn.Close was called: NextPackage returned (%v, %v)", pk, err)
+		}
+		simrt.Sleep(time.Second)
 	}
 }
 
@@ -833,6 +864,7 @@ func c13ConnClose(p *c13Plan, res *c13Res, conn *tds.Conn, ch0, ch *tds.Channel)
 	_ = conn.Close()
 	res.closeEnd = simrt.SimNow()
 	res.closeDone = true
+	res.connClosed, res.connClosedAt = true, res.closeEnd
 	if pending != nil {
 		// it must come back now that the connection is closed (a task that never does shows up as blocked)
 		simrt.Join(pending)
